@@ -497,3 +497,23 @@ F("J06", "C05", RU, "  lat = [[x, 0, u * d0 % w], [0, x, v * d0 % w], [0, 0, w]]
 F("J07", "C05", RU, "    if a and c and gmpy.is_square(b * b - 4 * a * c):\n      t = gmpy.isqrt(b * b - 4 * a * c)", "    if a and c and gmpy.is_square(b * b - 2 * a * c):\n      t = gmpy.isqrt(b * b - 2 * a * c)", "R-C05-CONSTRUCT", "wrong discriminant")
 F("J08", "C05", RU, "      for rt in (t, -t):\n", "      for rt in (t,):\n", "R-C05-CONSTRUCT", "only one root tried")
 F("J09", "C05", RU, "  x = 2 ** (n.bit_length() // 2)\n  for quot, _, v in cf:", "  x = 2 ** (n.bit_length() // 2 - 1)\n  for quot, _, v in cf:", "R-C05-CONSTRUCT", "split point of the quadratic moved")
+
+# ---------------------------------------------------------------------------------- C11 scalar-multiplication invariant (round 2)
+F("K01", "C11", EC, "      if r:\n        res = self.AddJacobian(res, pj)\n      pj = self.DoubleJacobian(pj)", "      pj = self.DoubleJacobian(pj)\n      if r:\n        res = self.AddJacobian(res, pj)",
+  "R-C11-SCALAR", "Multiply: doubles before adding")
+F("K02", "C11", EC, "    if n == 1:\n      return p\n    res = INFINITY_JACOBIAN", "    if n <= 2:\n      return p\n    res = INFINITY_JACOBIAN", "R-C11-SCALAR", "Multiply: shortcut for n <= 2 returns p")
+F("K03", "C11", EC, "      p = self.Negate(p)\n      n = -n\n    res = INFINITY\n", "      n = -n\n    res = INFINITY\n", "R-C11-SCALAR", "MultiplyAffine: negative scalar not negated")
+F("K04", "C11", EC, "    res = INFINITY\n    # Loop invariant: The expected result is res + p * n\n    while n:", "    res = INFINITY\n    # Loop invariant: The expected result is res + p * n\n    while n > 1:",
+  "R-C11-SCALAR", "MultiplyAffine: loop stops one bit early")
+F("K05", "C11", EC, "    res = INFINITY\n    # Loop invariant", "    res = p\n    # Loop invariant", "R-C11-SCALAR", "MultiplyAffine: accumulator starts at p")
+T("K06", "C11", EC, "      n, r = divmod(n, 2)\n      if r:\n        res = self.Add(res, p)", "      r = n % 2\n      n = n // 2\n      if r == 1:\n        res = self.Add(p, res)",
+  "MultiplyAffine: divmod split into % and //, operands commuted")
+F("K10", "C11", EC, "    scalars = [x % self.n for x in scalars]", "    scalars = [x if x < self.n else x % self.n for x in scalars]", "R-C11-COMB", "comb: negative scalars not reduced (seed r2)")
+T("K11", "C11", EC, "    scalars = [x % self.n for x in scalars]", "    scalars = [x if 0 <= x < self.n else x % self.n for x in scalars]", "comb: reduction skipped only for canonical scalars")
+F("K12", "C11", EC, "    scalars = [x % self.n for x in scalars]\n", "    scalars = list(scalars)\n", "R-C11-COMB", "comb: no reduction")
+F("K13", "C11", EC, "    mask = sum(1 << j for j in range(0, self.n.bit_length(), steps))", "    mask = sum(1 << j for j in range(0, self.n.bit_length(), window_size))", "R-C11-COMB", "comb: teeth spaced by window size")
+F("K14", "C11", EC, "    for i in range(steps - 1, -1, -1):\n      points = [(None, None)] * size", "    for i in range(steps - 1, 0, -1):\n      points = [(None, None)] * size", "R-C11-COMB", "comb: offset 0 never processed")
+F("K15", "C11", EC, "        res = self.BatchDouble(res)\n        res = self.BatchAddList(res, points)", "        res = self.BatchAddList(res, points)\n        res = self.BatchDouble(res)", "R-C11-COMB", "comb: add before double")
+F("K16", "C11", EC, "        multiplier = (s >> i) & mask", "        multiplier = (s >> (i + 1)) & mask", "R-C11-COMB", "comb: shift off by one")
+T("K17", "C11", EC, "    window_size = 8\n", "    window_size = 4\n", "comb: a different window size is still a correct comb")
+T("K18", "C11", EC, "        res = self.BatchDouble(res)\n        res = self.BatchAddList(res, points)", "        doubled = self.BatchDouble(res)\n        res = self.BatchAddList(points, doubled)", "comb: temporaries / commuted add")
